@@ -199,9 +199,40 @@ def stake_hide_delegation_from_contract(ls):
     return ls
 
 
+def monitor_demo():
+    """the repository's own tests under the monitor hooks: accepted; with a reply dropped, a reply for a sub-message that
+    does not ask for one, a failing transaction that changed the storage, a query that changed it: rejected"""
+    import glob
+    d = os.path.join(T, "monitor")
+    subprocess.run(["rm", "-rf", d]); os.makedirs(d)
+    C.sh(["cargo", "test", "--offline", "--all-features"], cwd=C.REPO, timeout=1500, env={"CW_MT_VERIF_TRACE": d, "CARGO_NET_OFFLINE": "true"})
+    lines = []
+    for fn in sorted(glob.glob(os.path.join(d, "*.ndjson"))):
+        lines.append({"ev": "reset", "kind": "", "ok": True, "pre": "", "post": ""})
+        lines += [json.loads(l) for l in open(fn)]
+    def run(ls, tag):
+        p = os.path.join(T, f"monitor-{tag}.ndjson")
+        write_lines(p, ls)
+        return tlc_accepts("Monitor.tla", "trace/Monitor.cfg", p, f"st-monitor-{tag}")
+    note("monitor: the repository's tests as recorded are accepted", run(lines, "ok"))
+    def drop_reply(ls):
+        i = first(ls, lambda l: l["ev"] == "reply"); del ls[i]; return ls
+    def spurious_reply(ls):
+        i = first(ls, lambda l: l["ev"] == "sub" and l["kind"] == "never" and l["ok"])
+        ls.insert(i + 1, {"ev": "reply", "kind": "", "ok": True, "pre": ls[i]["pre"], "post": ""}); return ls
+    def failing_tx_writes(ls):
+        i = first(ls, lambda l: l["ev"] == "tx" and not l["ok"]); ls[i]["post"] = "0000000000000001"; return ls
+    def query_writes(ls):
+        i = first(ls, lambda l: l["ev"] == "query"); ls[i]["post"] = "0000000000000001"; return ls
+    for name, fn in (("a reply call removed", drop_reply), ("a reply after a sub-message that asks for none", spurious_reply),
+                     ("a failing transaction with a changed storage digest", failing_tx_writes), ("a query with a changed storage digest", query_writes)):
+        note(f"monitor: {name} rejected", not run(fn(copy.deepcopy(lines)), name.replace(" ", "_")[:30]))
+
+
 def main():
     os.makedirs(T, exist_ok=True)
     C.build_harness()
+    monitor_demo()
     trace_demo("chain-stake", ["12", "30"], "trace/Trace_Chain.tla", "trace/Trace_Chain_stake.cfg",
                [("accumulated reward off by one", stake_corrupt_reward), ("payout at a block update not recorded", stake_drop_payout),
                 ("pending unbonding recorded as already paid", stake_wrong_settled),
